@@ -78,6 +78,7 @@ def rand_K(g, n, kind, scale):
 
 K_KINDS = ["psd-full", "psd-rank1", "psd-lowrank", "indefinite"]
 SCALES = [1e-2, 1e-1, 1.0, 8.0]
+WEAK = [1e-4, 1e-6, 1e-7]     # weak generators: H and K both at this strength (with SCALES: 1 ... 1e-7)
 
 
 def basis_of(c):
@@ -173,11 +174,13 @@ def unr(s, shape):
     return np.array([float(x) for x in unqlist(s)]).reshape(shape)
 
 
-def near(a, b, tol=TOL):
+def near(a, b, tol=TOL, ref=1.0):
+    """|a - b| <= tol * max(ref, |a|, |b|): RELATIVE to the magnitude `ref` of the generator at hand (a weak generator
+    of strength 1e-6 is compared at 1e-6 * tol, not at tol)"""
     a = np.asarray(a); b = np.asarray(b)
     if a.shape != b.shape:
         return False
-    sc = max(1.0, float(np.abs(a).max(initial=0)), float(np.abs(b).max(initial=0)))
+    sc = max(float(ref), float(np.abs(a).max(initial=0)), float(np.abs(b).max(initial=0)))
     return bool(np.abs(a - b).max(initial=0) <= tol * sc)
 
 
@@ -210,11 +213,13 @@ def correspondence(ctx):
     g = ctx.npgen(11)
     reps = 3 if ctx.quick else 6
 
+    cur = {"ref": 1.0}     # comparison scale of the case at hand (weak generators are compared relative to their strength)
+
     def ask_c(op, desc, impl, shape, *toks):
-        pend.append((op, desc, ("ok", np.asarray(impl)), drv.ask(*toks), ("c", shape)))
+        pend.append((op, desc, ("ok", np.asarray(impl)), drv.ask(*toks), ("c", shape), cur["ref"]))
 
     def ask_r(op, desc, impl, shape, *toks):
-        pend.append((op, desc, impl, drv.ask(*toks), ("r", shape)))
+        pend.append((op, desc, impl, drv.ask(*toks), ("r", shape), cur["ref"]))
 
     for label, c in systems(ctx, g, "corr"):
         B = basis_of(c)
@@ -222,14 +227,16 @@ def correspondence(ctx):
         n = d * d
         bs = pbasis(B)
         for rep in range(reps):
-            for kk, kind in enumerate(K_KINDS):
-                sH = SCALES[int(g.integers(0, 4))]
-                sK = SCALES[int(g.integers(0, 4))]
+            ccases = [(kk, kind, SCALES[int(g.integers(0, 4))], SCALES[int(g.integers(0, 4))]) for kk, kind in enumerate(K_KINDS)]
+            wk = WEAK[rep % len(WEAK)]
+            ccases.append((4, K_KINDS[rep % 4], wk, wk))          # weak generator: the truncation thresholds of _truncate_hs matter
+            for kk, kind, sH, sK in ccases:
+                cur["ref"] = 1.0 if kk < 4 else 0.1 * wk
                 H = herm(g, d, sH)
                 K = rand_K(g, n - 1, kind, sK)
                 J = herm(g, d, sK)
                 desc = {"sys": label, "K": kind, "sH": sH, "sK": sK, "rep": rep}
-                ctx.count(f"corr {label} K={kind}")
+                ctx.count(f"corr {label} K={kind}" + (f" weak strength={sH:g}" if kk == 4 else ""))
                 ctx.case(("corr", label, kind, rep, H.tobytes(), K.tobytes()), nontrivial=True,
                          sample={"op": "fromhk/ext/...", **desc})
                 # ---- builders
@@ -267,7 +274,7 @@ def correspondence(ctx):
                     eigs = np.linalg.eigvalsh(kimpl)
                     if np.abs(eigs).min() > 1e-9 and np.abs(kimpl - kimpl.conj().T).max() < 1e-14:
                         pend.append(("iscp", dd, ("ok", bool(L.is_cp())),
-                                     drv.ask("iscp", d, bs, hss, qlist(eigs), EPS), ("b", None)))
+                                     drv.ask("iscp", d, bs, hss, qlist(eigs), EPS), ("b", None), 1.0))
                     # projections
                     ask_r("projeq", dd, ("ok", L.calc_proj_eq_constraint().hs), (n, n), "projeq", n, hss)
                     lam, V = np.linalg.eig(kimpl)
@@ -283,7 +290,8 @@ def correspondence(ctx):
                     c, cs, is_physicality_required=False).hs), (n, n), "jump", d, bs, pc(np.array(cs)), EPS)
                 jp = el.generate_j_part_cb_from_jump_operators(cs)
                 kp = el.generate_k_part_cb_from_jump_operators(cs)
-                pend.append(("jumpparts", dj, ("ok", (jp, kp)), drv.ask("jumpparts", d, pc(np.array(cs))), ("cc", (n, n))))
+                pend.append(("jumpparts", dj, ("ok", (jp, kp)), drv.ask("jumpparts", d, pc(np.array(cs))), ("cc", (n, n)), cur["ref"]))
+            cur["ref"] = 1.0
             # ---- is_tp thresholds (well inside / well outside), to_gate series
             for off, expect in ((0.0, True), (ATOL / 10, True), (ATOL * 10, False), (1e-3, False)):
                 hs = dy(g, (n, n), 1.0)
@@ -291,7 +299,7 @@ def correspondence(ctx):
                 hs[0, int(g.integers(0, n))] = off * (1 if g.random() < 0.5 else -1)
                 L = EL(c, hs)
                 pend.append(("istp", {"sys": label, "row0": off}, ("ok", bool(L.is_tp())),
-                             drv.ask("istp", n, prr(hs), EPS), ("b", None)))
+                             drv.ask("istp", n, prr(hs), EPS), ("b", None), 1.0))
                 ctx.count(f"corr is_tp offset={off:g}")
             if n <= 9 or rep == 0:
                 hs = dy(g, (n, n), 0.25, bits=5)
@@ -313,7 +321,7 @@ def correspondence(ctx):
         ask_r("jump", {"sys": label, "jumps": 0}, impl_r(lambda: el.generate_effective_lindbladian_from_jump_operators(
             c, [], is_physicality_required=False).hs), (n, n), "jump", d, bs, "-", EPS)
     out = drv.run()
-    for op, desc, impl, i, (kind, shape) in pend:
+    for op, desc, impl, i, (kind, shape), ref in pend:
         ctx.corr_ops.add(op)
         rep = out[i]
         t = rep.split()
@@ -325,11 +333,11 @@ def correspondence(ctx):
         elif t[0] == "err" or impl[0] == "err":
             ok = t[0] == "err" and impl[0] == "err" and t[1] == impl[1]
         elif kind == "c":
-            ok = near(unc(t[1], shape), impl[1])
+            ok = near(unc(t[1], shape), impl[1], TOL, ref)
         elif kind == "r":
-            ok = near(unr(t[1], shape), impl[1])
+            ok = near(unr(t[1], shape), impl[1], TOL, ref)
         elif kind == "cc":
-            ok = near(unc(t[1], shape), impl[1][0]) and near(unc(t[2], shape), impl[1][1])
+            ok = near(unc(t[1], shape), impl[1][0], TOL, ref) and near(unc(t[2], shape), impl[1][1], TOL, ref)
         if not ok:
             ctx.disagree(op, desc, str(impl)[:300], rep[:300])
 
@@ -375,6 +383,7 @@ def check_generator(ctx, label, rot_seed, c, B, hs, H, K, J, family, tag, g):
     rep = {"kind": "gen", "sys": label, "rot_seed": rot_seed, "hs": arr(hs), "H": arr(H), "K": arr(K), "J": arr(J),
            "family": family, "tag": tag}
     fails = []
+    S = max(float(np.abs(np.asarray(hs)).max()), 1e-300)      # magnitude of the generator: every comparison is relative to it
 
     def V(sig, what):
         ctx.violate(sig, what, rep)
@@ -388,19 +397,19 @@ def check_generator(ctx, label, rot_seed, c, B, hs, H, K, J, family, tag, g):
                 rho = qobj.rand_density(g, d)
                 out = qobj.mat_of(c, L.hs @ qobj.vec_of(c, rho))
                 ref = gksl_apply(B, H, K, rho)
-                if not near(out, ref, 1e-8):
+                if not near(out, ref, 1e-8, ref=S):
                     V(f"C18/gksl_action/{family}", f"{label}: generator from (H,K) acts differently from the GKSL equation, max diff {np.abs(out - ref).max():.3g}")
                     break
         # 2. extraction
         Ht = H - np.trace(H) / d * I
         h = L.calc_h_mat(); k = L.calc_k_mat(); j = L.calc_j_mat()
-        if not near(h, Ht, 1e-8):
+        if not near(h, Ht, 1e-8, ref=S):
             V(f"C18/calc_h_mat/{family}", f"{label}: calc_h_mat != traceless part of H, diff {np.abs(h - Ht).max():.3g}")
-        if not near(k, K, 1e-8):
+        if not near(k, K, 1e-8, ref=S):
             V(f"C18/calc_k_mat/{family}", f"{label}: calc_k_mat != K, diff {np.abs(k - K).max():.3g}")
-        j_ok = near(j, J, 1e-8)
+        j_ok = near(j, J, 1e-8, ref=S)
         if not j_ok:
-            if near(j, d12_coded_j(B, J), 1e-8):
+            if near(j, d12_coded_j(B, J), 1e-8, ref=S):
                 V("C18/calc_j_mat/identity-component-dropped", f"{label}: calc_j_mat drops the identity component of J and halves the basis[1] one: tr J = {np.trace(J).real:.4g}, extracted trace {np.trace(j).real:.3g}, diff {np.abs(j - J).max():.3g}")
             else:
                 V(f"C18/calc_j_mat/{family}/other", f"{label}: calc_j_mat differs from J and from the D12 pattern, diff {np.abs(j - J).max():.3g}")
@@ -414,19 +423,19 @@ def check_generator(ctx, label, rot_seed, c, B, hs, H, K, J, family, tag, g):
                 dsum = L.calc_j_part(mode) + L.calc_k_part(mode)
             except Exception as e:  # noqa
                 V(f"C18/parts_sum/{mode}/raises", f"{label}: {type(e).__name__}: {e}"); continue
-            if not near(dpart, dsum, 1e-8):
+            if not near(dpart, dsum, 1e-8, ref=S):
                 V(f"C18/parts_sum/{mode}/d_part", f"{label}: d part != j part + k part")
-            if near(s, whole, 1e-8):
+            if near(s, whole, 1e-8, ref=S):
                 continue
-            if (not j_ok) and near(whole - s, resid, 1e-8):
+            if (not j_ok) and near(whole - s, resid, 1e-8, ref=S):
                 V(f"C18/parts_sum/{mode}/identity-component-dropped", f"{label}: h+j+k parts differ from the whole by {np.abs(whole - s).max():.3g} (= the dropped J components)")
             else:
                 V(f"C18/parts_sum/{mode}/{family}/other", f"{label}: h+j+k parts differ from the whole by {np.abs(whole - s).max():.3g}, not explained by D12")
         # 4. extract -> rebuild reproduces the generator
         try:
             hs2 = el.generate_hs_from_hjk(c, h, j, k)
-            if not near(hs2, L.hs, 1e-8):
-                if (not j_ok) and near(L.hs - hs2, hs_of_lcb(B, resid_cb_d12).real, 1e-8):
+            if not near(hs2, L.hs, 1e-8, ref=S):
+                if (not j_ok) and near(L.hs - hs2, hs_of_lcb(B, resid_cb_d12).real, 1e-8, ref=S):
                     V("C18/extract_rebuild/identity-component-dropped", f"{label}: rebuild from extracted (h,j,k) differs by {np.abs(hs2 - L.hs).max():.3g}")
                 else:
                     V(f"C18/extract_rebuild/{family}/other", f"{label}: rebuild from extracted (h,j,k) differs by {np.abs(hs2 - L.hs).max():.3g}, not explained by D12")
@@ -437,8 +446,10 @@ def check_generator(ctx, label, rot_seed, c, B, hs, H, K, J, family, tag, g):
         Kind = cm[1:, 1:]
         ev = np.linalg.eigvalsh((Kind + Kind.conj().T) / 2)
         row0 = np.abs(L.hs[0]).max()
-        if (row0 < 1e-14 or row0 > 1e-11) and (ev.min() > 1e-9 or ev.min() < -1e-9 or np.abs(ev).max() < 1e-14 or ev.min() > -1e-15):
-            exp_tp, exp_cp = bool(row0 < 1e-14), bool(ev.min() > -1e-12)
+        # quara's verdicts use the ABSOLUTE atol = 1e-13: expectations are formed only where the reference lies at
+        # <= atol/10 inside or >= 10 atol outside (weak generators included: a PSD K of strength 1e-7 must be judged CP)
+        if (row0 <= 1e-14 or row0 >= 1e-12) and (ev.min() >= -1e-14 or ev.min() <= -1e-12):
+            exp_tp, exp_cp = bool(row0 <= 1e-14), bool(ev.min() >= -1e-14)
             if bool(L.is_tp()) != exp_tp:
                 V(f"C18/is_tp/{family}", f"{label}: is_tp={L.is_tp()} but max|first row|={row0:.3g}")
             if bool(L.is_cp()) != exp_cp:
@@ -464,11 +475,11 @@ def check_generator(ctx, label, rot_seed, c, B, hs, H, K, J, family, tag, g):
             # dissipator = clipped K exactly
             w, U = np.linalg.eigh((Kind + Kind.conj().T) / 2)
             Kclip = U @ np.diag(np.maximum(w, 0)) @ U.conj().T
-            if not near(cq, Kclip, 1e-7):
+            if not near(cq, Kclip, 1e-7, ref=S):
                 V(f"C18/proj_ineq/clip/{family}", f"{label}: dissipator of the inequality projection is not the eigenvalue-clipped K, diff {np.abs(cq - Kclip).max():.3g}")
             if physical:
-                if not near(Q.hs, L.hs, 1e-8):
-                    if (not j_ok) and near(L.hs - Q.hs, hs_of_lcb(B, resid_cb_d12).real, 1e-7):
+                if not near(Q.hs, L.hs, 1e-8, ref=S):
+                    if (not j_ok) and near(L.hs - Q.hs, hs_of_lcb(B, resid_cb_d12).real, 1e-7, ref=S):
                         V("C18/proj_ineq/physical-unchanged/identity-component-dropped", f"{label}: inequality projection changes a physical generator by {np.abs(Q.hs - L.hs).max():.3g} (first row {np.abs(Q.hs[0]).max():.3g})")
                     else:
                         V(f"C18/proj_ineq/physical-unchanged/{family}/other", f"{label}: inequality projection changes a physical generator by {np.abs(Q.hs - L.hs).max():.3g}, not explained by D12")
@@ -487,7 +498,7 @@ def check_generator(ctx, label, rot_seed, c, B, hs, H, K, J, family, tag, g):
                 ch = choi_of_hs(B, G.hs)
                 e0 = np.zeros(n); e0[0] = 1
                 bad = []
-                if not near(G.hs, ref, 1e-9):
+                if not near(G.hs, ref, 1e-9, ref=S):
                     bad.append("differs from scipy expm")
                 if np.abs(G.hs[0] - e0).max() > 1e-9:
                     bad.append("not TP")
@@ -498,7 +509,7 @@ def check_generator(ctx, label, rot_seed, c, B, hs, H, K, J, family, tag, g):
                 if np.abs(L.hs * t).max() <= 5.0 and not bool(G.is_physical()):
                     bad.append("is_physical False")
                 # semigroup law as an independent check of the exponential
-                if not near(G.hs @ G.hs, expm(2 * t * L.hs), 1e-8):
+                if not near(G.hs @ G.hs, expm(2 * t * L.hs), 1e-8, ref=S):
                     bad.append("G(t)^2 != G(2t)")
                 if bad:
                     V(f"C18/to_gate/{family}", f"{label}: t={t}: " + ", ".join(bad)); break
@@ -524,18 +535,19 @@ def check_jump(ctx, label, rot_seed, c, B, cs, family, g):
         rho = qobj.rand_density(g, d)
         ref = sum(x @ rho @ x.conj().T - 0.5 * (x.conj().T @ x @ rho + rho @ x.conj().T @ x) for x in cs)
         out = qobj.mat_of(c, L.hs @ qobj.vec_of(c, rho))
-        if near(out, ref, 1e-8) and near(Lcb, kref + jref, 1e-8):
+        S = max(float(np.abs(kref).max()), 1e-300)
+        if near(out, ref, 1e-8, ref=S) and near(Lcb, kref + jref, 1e-8, ref=S):
             if not (L.is_tp() and L.is_cp()):
                 V(f"C18/jump/verdict/{family}", f"{label}: GKSL generator from jump operators judged tp={L.is_tp()} cp={L.is_cp()}")
-        elif near(Lcb, kref + jcoded, 1e-8):
+        elif near(Lcb, kref + jcoded, 1e-8, ref=S):
             V("C18/jump/gksl_action/anticommutator-uses-c-not-cdagc", f"{label}: generator from {len(cs)} jump operator(s) is not the GKSL one (diff on a state {np.abs(out - ref).max():.3g}); its anti-commutator part is built from c instead of c^dagger c; is_tp={L.is_tp()}")
         else:
             V(f"C18/jump/gksl_action/{family}/other", f"{label}: generator from jump operators differs from GKSL by {np.abs(out - ref).max():.3g}, not explained by D13")
         kp = el.generate_k_part_cb_from_jump_operators(cs)
-        if not near(kp, kref, 1e-9):
+        if not near(kp, kref, 1e-9, ref=S):
             V(f"C18/jump/k_part/{family}", f"{label}: k part from jump operators != sum c (x) conj c")
         kg = el.generate_k_part_gb_from_jump_operators(cs, c.basis())
-        if not near(kg, hs_of_lcb(B, kref).real, 1e-9):
+        if not near(kg, hs_of_lcb(B, kref).real, 1e-9, ref=S):
             V(f"C18/jump/k_part_gb/{family}", f"{label}: k part (basis) from jump operators wrong")
     except Exception as e:  # noqa
         V(f"C18/jump/{family}/raises", f"{label}: {type(e).__name__}: {e}")
@@ -543,7 +555,7 @@ def check_jump(ctx, label, rot_seed, c, B, cs, family, g):
 
 
 PARTIAL = [
-    {"theorem": "exp_tp_partial", "missing": "first row of every partial sum of the exponential series is e0 (all N, all sizes); the limit statement for Matrix.exp and complete positivity of exp(L) (Lindblad's theorem) are not formalised - to_gate's CP/TP is checked per run on the implementation"},
+    {"theorem": "exp_tp / exp_series_tp", "missing": "trace preservation of exp(L) is proved (Mathlib NormedSpace.exp and every partial sum); complete positivity of exp(L) for PSD K (Lindblad's theorem) is not formalised - to_gate's CP is checked per run on the implementation"},
     {"theorem": "parts_sum", "missing": "proved for generators of the form rebuild(H,J,K) (Hermitian H, J; any K); surjectivity of rebuild onto Hermiticity-preserving generators is not formalised - the oracle evaluates the clause on generic real hs as well"},
     {"theorem": "gksl_action_hk / from_hk_row0", "missing": "stated for the exact complex matrix before _truncate_hs; the float truncation layer is modelled (truncateHs) and tied by the correspondence only; physical <=> (row0 = 0 and K PSD) is proved only as verdict wiring (isTp_iff) - 'K PSD <=> exp(tL) CP' is not proved"},
     {"theorem": "jump_operators_gksl_fails", "missing": "negation witness only (D13): the generator built from jump operators is not the GKSL one as coded"},
@@ -563,13 +575,17 @@ def oracle(ctx, volume=1):
         n = d * d
         I = np.eye(d)
         for rep in range(reps):
-            for kind in K_KINDS:
-                sH = SCALES[int(g.integers(0, 4))]
-                sK = SCALES[int(g.integers(0, 4))]
+            cases = [(kind, SCALES[int(g.integers(0, 4))], SCALES[int(g.integers(0, 4))], "") for kind in K_KINDS]
+            # weak generators: H and K both at strength 1e-4 / 1e-6 / 1e-7 (all clauses, relative tolerances)
+            w = WEAK[rep % len(WEAK)]
+            cases += [(K_KINDS[(2 * rep) % 4], w, w, "weak-"), (K_KINDS[(2 * rep + 1) % 4], w, w, "weak-")]
+            if not ctx.quick or volume > 1:
+                cases += [(K_KINDS[(rep + i) % 4], ww, ww, "weak-") for i, ww in enumerate(WEAK) if ww != w]
+            for kind, sH, sK, wk in cases:
                 H = herm(g, d, sH)
                 K = rand_K(g, n - 1, kind, sK)
                 J = J_of_K(B, K)
-                ctx.count(f"oracle {label} K={kind}")
+                ctx.count(f"oracle {label} K={kind}" + (f" weak strength={sH:g}" if wk else ""))
                 try:
                     L = el.generate_effective_lindbladian_from_hk(c, H, K, is_physicality_required=False)
                 except Exception as e:  # noqa
@@ -578,14 +594,15 @@ def oracle(ctx, volume=1):
                     continue
                 ctx.case(("or", label, kind, H.tobytes(), K.tobytes()), nontrivial=True,
                          sample={"sys": label, "K": kind, "scaleH": sH, "scaleK": sK})
-                check_generator(ctx, label, rot_seed, c, B, L.hs, H, K, J, f"hk-{kind}", "hk", g)
+                check_generator(ctx, label, rot_seed, c, B, L.hs, H, K, J, f"{wk}hk-{kind}", "hk", g)
+                SL = max(float(np.abs(L.hs).max()), 1e-300)
                 # from_k must be the H = 0 case, from_hjk with J_of_K the same generator
                 try:
                     a = el.generate_hs_from_k(c, K)
                     b = el.generate_hs_from_hjk(c, H, J, K)
                     h0 = el.generate_hs_from_h(c, H)
-                    if not near(a + h0, L.hs, 1e-8) or not near(b, L.hs, 1e-8):
-                        ctx.violate(f"C18/builders_agree/{kind}", f"{label}: from_hk != from_h + from_k or != from_hjk(H, J(K), K)",
+                    if not near(a + h0, L.hs, 1e-8, ref=SL) or not near(b, L.hs, 1e-8, ref=SL):
+                        ctx.violate(f"C18/builders_agree/{wk}{kind}", f"{label}: from_hk != from_h + from_k or != from_hjk(H, J(K), K)",
                                     {"kind": "fromhk", "sys": label, "rot_seed": rot_seed, "H": arr(H), "K": arr(K)})
                 except Exception as e:  # noqa
                     ctx.violate(f"C18/builders_agree/{kind}/raises", f"{label}: {type(e).__name__}: {e}",
@@ -628,6 +645,22 @@ def oracle(ctx, volume=1):
             except Exception as e:  # noqa
                 ctx.violate("C18/from_hjk/raises", f"{label}: {type(e).__name__}: {e}",
                             {"kind": "fromhk", "sys": label, "rot_seed": rot_seed, "H": arr(Hj), "K": arr(Kj)})
+            # the same at a weak strength, and weak Hermitian-projector jump operators (the correct GKSL case)
+            w = WEAK[rep % len(WEAK)]
+            Hj = herm(g, d, w); Jj = herm(g, d, w); Kj = rand_K(g, n - 1, K_KINDS[(rep + 1) % 4], w)
+            try:
+                hsj = el.generate_hs_from_hjk(c, Hj, Jj, Kj)
+                ctx.count(f"oracle {label} hjk-generic weak strength={w:g}")
+                ctx.case(("or-hjk", label, Hj.tobytes(), Jj.tobytes(), Kj.tobytes()), nontrivial=True)
+                check_generator(ctx, label, rot_seed, c, B, hsj, Hj, Kj, Jj, "weak-hjk-generic", "hjk", g)
+            except Exception as e:  # noqa
+                ctx.violate("C18/from_hjk/weak/raises", f"{label}: {type(e).__name__}: {e}",
+                            {"kind": "fromhk", "sys": label, "rot_seed": rot_seed, "H": arr(Hj), "K": arr(Kj)})
+            u = qobj.rand_unitary(g, d)
+            cs = [np.sqrt(w) * (u[:, [i]] @ u[:, [i]].conj().T) for i in range(int(g.integers(1, d + 1)))]
+            ctx.count(f"oracle {label} jump projectors weak strength={w:g}")
+            ctx.case(("or-jumpp-weak", label, cs[0].tobytes()), nontrivial=True)
+            check_jump(ctx, label, rot_seed, c, B, cs, "weak-projector", g)
             # non-TP perturbation of a physical generator: verdict and equality projection
             K = rand_K(g, n - 1, "psd-full", 0.5)
             L = el.generate_effective_lindbladian_from_hk(c, H, K, is_physicality_required=False)
@@ -662,6 +695,73 @@ def oracle(ctx, volume=1):
             ctx.count(f"oracle {label} jump projectors")
             ctx.case(("or-jumpp", label, cs[0].tobytes()), nontrivial=True)
             check_jump(ctx, label, rot_seed, c, B, cs, "projector", g)
+    if volume == 1 or not getattr(ctx, "_typical_done", False):
+        ctx._typical_done = True
+        for system, name, ids in typical_items(ctx):
+            ctx.count(f"oracle typical Lindbladian {system}")
+            ctx.case(("typical", system, name, tuple(ids)), nontrivial=(name != "identity"),
+                     sample={"catalogue": "effective_lindbladian_typical", "system": system, "name": name, "ids": ids})
+            check_typical(ctx, system, name, ids)
+
+
+def typical_items(ctx):
+    from quara.objects import gate_typical as GT
+    items = [("1qubit", n, [0]) for n in GT.get_gate_names_1qubit()]
+    items += [("2qubit", n, ids) for n in GT.get_gate_names_2qubit() for ids in ([0, 1], [1, 0])]
+    if not ctx.quick:
+        items += [("1qutrit", n, [0]) for n in GT.get_gate_names_1qutrit()]
+    return items
+
+
+def check_typical(ctx, system, name, ids):
+    """catalogue Lindbladian `name` (effective_lindbladian_typical.py) with the given id order: generator of -i[H, .] for the
+    catalogue Hamiltonian, extraction returns that Hamiltonian, no dissipator, exp(L) is the named gate"""
+    from quara.objects import gate_typical as GT
+    from quara.objects import effective_lindbladian_typical as LT
+    from quara.objects.composite_system_typical import generate_composite_system
+    mode, k = {"1qubit": ("qubit", 1), "2qubit": ("qubit", 2), "1qutrit": ("qutrit", 1)}[system]
+    c = generate_composite_system(mode, k)
+    dims = [c.dim] if k == 1 else [2] * k
+    rep = {"kind": "typical", "system": system, "name": name, "ids": ids}
+    fails = []
+
+    def V(check, what):
+        ctx.violate(f"C18/typical/{system}/{check}", f"{name} ids={ids}: {what}", rep); fails.append(check)
+    try:
+        B = basis_of(c)
+        d = c.dim
+        I = np.eye(d)
+        H = np.asarray(_dense(LT.generate_hamiltonian_mat_from_gate_name(name, dims, ids)), dtype=complex)
+        L = LT.generate_effective_lindbladian_from_gate_name(name, c, ids)
+        Lm = np.asarray(_dense(LT.generate_effective_lindbladian_mat_from_gate_name(name, dims, ids)))
+        refhs = hs_of_lcb(B, -1j * (np.kron(H, I) - np.kron(I, H.conj())))
+        S = max(float(np.abs(refhs).max()), 1e-12)
+        if np.abs(H - H.conj().T).max() > 1e-12:
+            V("hamiltonian-not-hermitian", f"|H - H^dagger| = {np.abs(H - H.conj().T).max():.3g}")
+        if not near(L.hs, refhs.real, 1e-9, ref=S) or np.abs(refhs.imag).max() > 1e-9 * S:
+            V("gksl_action", f"generator differs from -i[H, .] of generate_hamiltonian_mat_from_gate_name by {np.abs(L.hs - refhs.real).max():.3g}")
+        if not near(Lm, L.hs, 1e-12, ref=S):
+            V("mat-vs-object", "generate_effective_lindbladian_mat_from_gate_name differs from the object's hs")
+        h = L.calc_h_mat()
+        Ht = H - np.trace(H) / d * I
+        if not near(h, Ht, 1e-9, ref=S):
+            V("calc_h_mat", f"calc_h_mat differs from the traceless part of the catalogue Hamiltonian by {np.abs(h - Ht).max():.3g}")
+        kmat, jmat = L.calc_k_mat(), L.calc_j_mat()
+        if np.abs(kmat).max() > 1e-9 * S or np.abs(jmat).max() > 1e-9 * S:
+            V("dissipator-nonzero", f"purely Hamiltonian generator has |K| = {np.abs(kmat).max():.3g}, |J| = {np.abs(jmat).max():.3g}")
+        if not (L.is_tp() and L.is_cp() and L.is_physical()):
+            V("verdict", f"is_tp={L.is_tp()} is_cp={L.is_cp()} is_physical={L.is_physical()}")
+        G = L.to_gate()
+        gate = GT.generate_gate_from_gate_name(name, c, ids)
+        U = expm(-1j * H)
+        hsU = np.array([[np.trace(a.conj().T @ U @ b @ U.conj().T) for b in B] for a in B])
+        if not near(G.hs, np.asarray(gate.hs), 1e-9):
+            V("to_gate-vs-named-gate", f"to_gate().hs differs from generate_gate_from_gate_name by {np.abs(G.hs - gate.hs).max():.3g}")
+        if not near(G.hs, hsU.real, 1e-9):
+            V("to_gate-vs-exp-hamiltonian", f"to_gate().hs differs from the HS matrix of exp(-iH) by {np.abs(G.hs - hsU.real).max():.3g}")
+    except Exception as e:  # noqa
+        V("raises", f"{type(e).__name__}: {e}")
+    return fails
 
 
 def search(ctx):
@@ -672,7 +772,12 @@ def search(ctx):
 def replay(ctx, data):
     r = data["replay"]
     sig = data.get("signature", "")
-    print("replaying", sig, "on", r.get("sys"))
+    print("replaying", sig, "on", r.get("sys") or r.get("system"))
+    if r["kind"] == "typical":
+        f = check_typical(ctx, r["system"], r["name"], r["ids"])
+        for v in ctx.violations:
+            print("  still failing:", v["signature"], "-", v["what"])
+        return 1 if f else 0
     c = sys_by_label(r["sys"], r.get("rot_seed", 17))
     B = basis_of(c)
     g = ctx.npgen(99)
@@ -693,6 +798,11 @@ def replay(ctx, data):
         ref = sum(x @ rho @ x.conj().T - 0.5 * (x.conj().T @ x @ rho + rho @ x.conj().T @ x) for x in cs)
         print("L(1/d) implementation =\n", out, "\nGKSL reference =\n", ref, "\nis_tp", L.is_tp())
         check_jump(ctx, r["sys"], r.get("rot_seed", 17), c, B, cs, r["family"], g)
+    elif r["kind"] == "typical":
+        f = check_typical(ctx, r["system"], r["name"], r["ids"])
+        for v in ctx.violations[before:]:
+            print("  still failing:", v["signature"], "-", v["what"])
+        return 1 if f else 0
     elif r["kind"] == "hs":
         hs = unarr(r["hs"])
         L = EL(c, hs)
